@@ -411,6 +411,92 @@ def refs(tier="quick"):
             "lru_method_violations": [b for b in bad if b.startswith("lru methods")]}
 
 
+def groupby_native(tier="quick"):
+    """bounded native stand-in for C16: the REAL asyncstdlib.groupby against itertools.groupby under random histories of
+    {advance the groupby, advance the current group, advance any retained older group handle}, keys incl. None"""
+    import asyncio
+    import random
+    import asyncstdlib as a
+    rnd = random.Random(7)
+    bad = []
+    cases = 0
+    for trial in range(1500 if tier == "quick" else 12000):
+        keys = [rnd.choice([0, 1, 2, None]) for _ in range(rnd.randint(0, 8))]
+        ops = [rnd.choice("GGgso") for _ in range(rnd.randint(1, 14))]
+        keyed = trial % 2
+        asrc = trial % 3 == 0
+
+        def sync_run():
+            items = [K(k if k is not None else -1, "i%d" % i) for i, k in enumerate(keys)]
+            kf = (lambda x: keys[int(x.tag[1:])]) if keyed else None
+            g = _it.groupby(iter(items), key=kf) if keyed else _it.groupby(iter([keys[int(x.tag[1:])] for x in items]))
+            cur = None
+            old = []
+            o = []
+            for op in ops:
+                try:
+                    if op == "G":
+                        k, grp = next(g)
+                        if cur is not None:
+                            old.append(cur)
+                        cur = grp
+                        o.append(("G", repr(k)))
+                    elif op == "g" and cur is not None:
+                        o.append(("g", repr(next(cur))))
+                    elif op == "s" and old:
+                        o.append(("s", repr(next(old[-1]))))
+                    elif op == "o" and old:
+                        o.append(("o", repr(next(old[0]))))
+                except StopIteration:
+                    o.append((op, "stop"))
+            return o
+
+        async def async_run():
+            items = [K(k if k is not None else -1, "i%d" % i) for i, k in enumerate(keys)]
+
+            async def agen(xs):
+                for x in xs:
+                    yield x
+            data = items if keyed else [keys[int(x.tag[1:])] for x in items]
+            src = agen(data) if asrc else iter(data)
+            kf = (lambda x: keys[int(x.tag[1:])]) if keyed else None
+            if keyed and trial % 4 == 1:
+                sync_kf = kf
+
+                async def kf(x):        # noqa: F811
+                    return sync_kf(x)
+            g = a.groupby(src, key=kf) if keyed else a.groupby(src)
+            cur = None
+            old = []
+            o = []
+            for op in ops:
+                try:
+                    if op == "G":
+                        k, grp = await g.__anext__()
+                        if cur is not None:
+                            old.append(cur)
+                        cur = grp
+                        o.append(("G", repr(k)))
+                    elif op == "g" and cur is not None:
+                        o.append(("g", repr(await cur.__anext__())))
+                    elif op == "s" and old:
+                        o.append(("s", repr(await old[-1].__anext__())))
+                    elif op == "o" and old:
+                        o.append(("o", repr(await old[0].__anext__())))
+                except StopAsyncIteration:
+                    o.append((op, "stop"))
+                except Exception as e:      # noqa: BLE001
+                    o.append((op, "raised " + type(e).__name__))
+            return o
+        want = sync_run()
+        got = asyncio.run(async_run())
+        cases += 1
+        if want != got and len(bad) < 6:
+            bad.append(f"groupby keys={keys} ops={''.join(ops)} keyed={bool(keyed)} async source={asrc}: asyncstdlib {got} vs itertools {want}")
+    return {"cases": cases, "violations": bad,
+            "bound": "random histories (<= 14 operations) over <= 8 items with keys {0,1,2,None}; key absent / sync / async; list and async-generator sources"}
+
+
 if __name__ == "__main__":
     import os
     sys.path.insert(0, os.path.dirname(os.path.dirname(os.path.abspath(__file__))))
@@ -418,4 +504,4 @@ if __name__ == "__main__":
     if what == "refs":
         print(json.dumps(refs(sys.argv[2] if len(sys.argv) > 2 else "quick")))
     else:
-        print(json.dumps({"callkey": callkey}[what]()))
+        print(json.dumps({"callkey": callkey, "groupby": lambda: groupby_native(sys.argv[2] if len(sys.argv) > 2 else "quick")}[what]()))
